@@ -36,7 +36,11 @@ Starts == { [name |-> "array",            w |-> TRUE ],
 VARIABLES start, d0, cat, dim, w, steps
 cvars == <<start, d0, cat, dim, w, steps>>
 
-ViewKeepD == {"call0", "callrng", "callall", "rotated", "unrotated", "reversed", "sliced", "strided", "dropped", "taked"}
+ViewKeepD == {"call0", "callrng", "callall", "rotated", "unrotated", "reversed", "sliced", "strided", "dropped", "taked",
+              "reindexed", "blocked", "stenciled", "range", "sliced3",
+              "addrderef",     \* *(&x): through the pointer-to-view and back
+              "rebuilt"}       \* subarray<T, D>(x.begin(), x.end()): a view re-assembled from its iterators
+ViewNeeds2KeepDMore == {"reindexed2"}
 ViewNeeds2KeepD == {"transposed", "tilde"}
 ViewNeeds2LessD == {"diagonal", "flatted"}
 ViewMoreD == {"partitioned", "chunked"}
@@ -50,7 +54,7 @@ Succ(c, d, s) ==
     [] c = "view" /\ s = "callidx3" /\ d >= 3 -> IF d > 3 THEN [cat |-> "view", dim |-> d - 3] ELSE [cat |-> "element", dim |-> 0]
     [] c = "view" /\ s = "callmix" /\ d >= 2 -> [cat |-> "view", dim |-> d - 1]
     [] c = "view" /\ s \in ViewKeepD -> [cat |-> "view", dim |-> d]
-    [] c = "view" /\ s \in ViewNeeds2KeepD /\ d >= 2 -> [cat |-> "view", dim |-> d]
+    [] c = "view" /\ s \in (ViewNeeds2KeepD \cup ViewNeeds2KeepDMore) /\ d >= 2 -> [cat |-> "view", dim |-> d]
     [] c = "view" /\ s \in ViewNeeds2LessD /\ d >= 2 -> [cat |-> "view", dim |-> d - 1]
     [] c = "view" /\ s \in ViewMoreD /\ d < MaxViewD -> [cat |-> "view", dim |-> d + 1]
     [] c = "view" /\ s \in {"as_const", "transformed"} -> [cat |-> "view", dim |-> d]
@@ -58,7 +62,7 @@ Succ(c, d, s) ==
     [] c = "view" /\ s \in {"begin", "end", "cbegin", "cend"} -> [cat |-> "iterator", dim |-> d]
     [] c = "view" /\ s = "elements" -> [cat |-> "erange", dim |-> d]
     [] c = "view" /\ s = "home" -> [cat |-> "cursor", dim |-> d]
-    [] c = "iterator" /\ s \in {"deref", "itidx"} -> IF d > 1 THEN [cat |-> "view", dim |-> d - 1] ELSE [cat |-> "element", dim |-> 0]
+    [] c = "iterator" /\ s \in {"deref", "itidx", "arrow"} -> IF d > 1 THEN [cat |-> "view", dim |-> d - 1] ELSE [cat |-> "element", dim |-> 0]
     [] c = "iterator" /\ s = "itplus" -> [cat |-> "iterator", dim |-> d]
     [] c = "erange" /\ s = "ebegin" -> [cat |-> "eiter", dim |-> d]
     [] c = "erange" /\ s \in {"eidx", "efront", "eback"} -> [cat |-> "element", dim |-> 0]
@@ -66,7 +70,8 @@ Succ(c, d, s) ==
     [] c = "cursor" /\ s = "cidx" -> IF d > 1 THEN [cat |-> "cursor", dim |-> d - 1] ELSE [cat |-> "element", dim |-> 0]
     [] OTHER -> [cat |-> "none", dim |-> 0]
 
-AllSteps == {"idx", "callidx", "callidx2", "callidx3", "callmix", "front", "back"} \cup ViewKeepD \cup ViewNeeds2KeepD \cup ViewNeeds2LessD \cup ViewMoreD
+AllSteps == {"idx", "callidx", "callidx2", "callidx3", "callmix", "front", "back"} \cup ViewKeepD \cup ViewNeeds2KeepD \cup ViewNeeds2KeepDMore \cup ViewNeeds2LessD \cup ViewMoreD
+            \cup {"arrow"}   \* *(it.operator->()): the item reached through the iterator's arrow
             \cup {"as_const", "transformed", "broadcasted", "begin", "end", "cbegin", "cend", "elements", "home",
                   "deref", "itidx", "itplus", "ebegin", "eidx", "efront", "eback", "ederef", "cidx"}
 
